@@ -123,7 +123,7 @@ func genC18(t *Tape, hostile bool) *c18Scenario {
 				if !faulty || !t.Bool(50) {
 					return Fault{}
 				}
-				k := []int{FConnErr, FStall, FStatus, FRedirect, FEmpty, FTruncate, FBodyErr, FBodyStall, FGarbage}[t.Choose(9)]
+				k := []int{FConnErr, FStall, FStatus, FRedirect, FEmpty, FTruncate, FBodyErr, FBodyStall, FGarbage, FLyingCL}[t.Choose(10)]
 				if hostile && t.Bool(4) {
 					// 32 MiB bodies cost ~40 ms each: rare
 					k = FOversize + t.Choose(2)
@@ -578,6 +578,29 @@ func evalC18(sc *c18Scenario, obs *c18Obs, rc *ruleCtx) {
 						if firstDelta == nil || firstDelta.Hash != fo.Delta {
 							rc.fail("C18.F3", "delta_not_from_first_answering_location", fmt.Sprintf("%s: returned delta %s is not the answer of the first location that answered (index %d)", tag, w.specName(fo.Delta), firstIdx))
 						}
+						// "the first advertised location that answers": a location that
+						// was never asked although, by the plan, it is healthy and every
+						// location advertised before it is certainly down, is the one
+						// whose answer had to be taken
+						if fo.Cancel == 0 {
+							for j := range urls {
+								if j >= len(fo.XDelta) {
+									break
+								}
+								x := fo.XDelta[j]
+								healthy := urlContactable(urls[j]) && (x.Fault.Kind == FNone || x.Fault.Kind == FRedirect)
+								down := !urlContactable(urls[j]) || x.Fault.Kind == FConnErr || x.Fault.Kind == FStatus || x.Fault.Kind == FEmpty || x.Fault.Kind == FTruncate || x.Fault.Kind == FBodyErr || x.Fault.Kind == FGarbage || x.Fault.Kind == FLyingCL
+								if healthy {
+									if !x.Rec.Begun && j != firstIdx {
+										rc.fail("C18.F3", "earlier_healthy_location_never_asked", fmt.Sprintf("%s: the delta was taken from location %d although location %d, advertised before it and healthy, was never asked", tag, firstIdx, j))
+									}
+									break
+								}
+								if !down {
+									break // a stalling location: what happens depends on the timeout
+								}
+							}
+						}
 						// (the statement fixes WHICH answer is taken, not the order in
 						// which locations are contacted: that order is not judged)
 					}
@@ -626,6 +649,11 @@ func evalC18(sc *c18Scenario, obs *c18Obs, rc *ruleCtx) {
 		}
 		if get != nil && get.Outcome == "miss" {
 			rc.anteTrue("C18.F6")
+			if !fo.XBase.Rec.Begun && urlContactable(w.baseURL) && sc.URLKind == UNormal {
+				// a miss (however the cache wraps the sentinel) must lead to a
+				// download, not to an error before anything was requested
+				rc.fail("C18.F6", "miss_is_error_without_download", fmt.Sprintf("%s: the cache reported a miss and Fetch failed without requesting the CRL at all: %v", tag, fo.Err))
+			}
 		}
 		if baseOK && shapeClear && len(urls) > 0 && firstDelta == nil {
 			rc.anteTrue("C18.F4")
